@@ -28,6 +28,18 @@ STMTS = {
     "while": "while (RsV) { RdV = 1; }",
     "do": "do { RdV = 1; } while (RsV);",
     "switch": "switch (RsV) { case 1: RdV = 1; }",
+    "switch-nolabel": "switch (RsV) { RdV = 1; }",
+    "switch-nobrace": "switch (RsV) RdV = 1;",
+    "switch-default": "switch (RsV) { default: RdV = 1; }",
+    "switch-nested-if": "switch (RsV) { if (RtV) { RdV = 1; } }",
+    "while-nobrace": "while (RsV) RdV = 1;",
+    "while-const": "while (1) { RdV = 1; }",
+    "do-nobrace": "do RdV = 1; while (RsV);",
+    "do-once": "do { RdV = 1; } while (0);",
+    "comma-for-init": "for (i = 0, RxV = 1; i < 2; i++) { RdV = i; }",
+    "comma-for-step": "for (i = 0; i < 2; i++, RxV = 1) { RdV = i; }",
+    "prefix-dec-stmt": "--RxV;",
+    "goto-back": "again: RdV = 1; goto again;",
     "comma-stmt": "RdV = 1, RxV = 2;",
     "unknown-call-args": "frobnicate(RsV);",
     "unknown-call-noargs": "frobnicate();",
